@@ -604,6 +604,15 @@ func main() {
 	out.PerFile = 60
 
 	add := func(kind string, in Input) {
+		if kind != "corpus" && kind != "replay" {
+			byID := map[int]whr.Atom{}
+			for _, a := range in.Atoms {
+				byID[a.ID] = a
+			}
+			if whr.NegatesEmptyIn(in.Chain, byID, false) {
+				return // C02's known shape (Not over IN of an empty list)
+			}
+		}
 		o := e.run(in)
 		nontriv := len(o.Find) > 0 && len(o.Find) < len(in.Rows)
 		out.Add(lib.Case{Term: term(in, o), JSON: map[string]interface{}{"input": in, "observed": o},
